@@ -653,3 +653,86 @@ unit("C24", "Side-metadata tables in use by one configuration never alias",
      design_ref="2/C24", exhaustive=True,
      floors={"quick": {"plans_created": 55, "spaces_exported": 200, "specs_in_use": 400, "pairs_checked": 4000, "enum_declarations": 652, "enum_declarations_legal": 130, "enum_configurations": 1400,
                        "enum_pairs_checked": 100000, "selftest_mutants_caught": 10}})
+
+
+def c28_shards(tier, seed):
+    rnd = _rng(seed, 28)
+    shards = []
+    reps = 1 if tier == "quick" else 5
+    ops = 12000 if tier == "quick" else 40000
+    for variant, plans in (("A", COLLECTING), ("B", ["Compressor", "StickyImmix", "Immix"]), ("C", ["SemiSpace", "MarkCompact"]), ("D", ["Immix", "MarkSweep"])):
+        for plan in plans:
+            for i in range(reps):
+                shards.append(gc_shard(variant, plan, rnd, ops, flags=["events"] + (["weak", "finalizers"] if i % 2 else []), workers=rnd.choice([1, 4, 8]), mutators=rnd.choice([1, 2, 4]),
+                                       heap=rnd.choice([32, 64]), stress=rnd.choice([100000, 200000])))
+    # discontiguous spaces (Map32 + chunk-granular page resources)
+    for plan in ["SemiSpace", "GenCopy", "GenImmix", "Immix", "StickyImmix", "MarkSweep", "MarkCompact", "ConcurrentImmix"]:
+        for i in range(reps):
+            shards.append(gc_shard("A", plan, rnd, ops, flags=["events"], workers=rnd.choice([2, 8]), mutators=rnd.choice([1, 4]), heap=rnd.choice([32, 64]),
+                                   stress=rnd.choice([100000, 200000]), extra=["--layout", "map32"]))
+    return shards
+
+
+gcsim("C28", "Page resources hand out disjoint in-space pages with exact accounting",
+      rule=GC_RULE + "with the mmtk_verif event log: every successful Space::acquire emits a grant event (page resource, start, pages, VM-map descriptor of first and last byte) AFTER the pages were obtained, every FreeListPageResource::release_pages / "
+           "BlockPageResource::release_block emits a release event and every MonotonePageResource::reset / reset_cursor a reset event BEFORE the pages are given back; at every pause end the binding emits the real reserved/committed counters of every space. "
+           "The monitor keeps the set of live page runs per page resource: E: a grant not page aligned, outside a contiguous space's [start, start+extent), with a VM-map descriptor other than the space's, or overlapping a live run of ANY space; a release that is not "
+           "exactly a live run; at a pause end reserved != committed or committed != sum of live runs (an underflowed counter shows as a huge difference). 1-4 mutators and 1-8 GC workers acquire concurrently; contiguous (Map64) and discontiguous (--layout map32) "
+           "spaces; case = one grant, release or per-space snapshot; distinct = (space, run-size class) and (space, live-pages class)",
+      technique="conservation monitor (in = out + held) over the grant/release event log of real page resources + quiescent-point comparison with the real counters",
+      level_text="Every grant and release of every space in the runs is checked against the model of live runs, and the counters are compared with the model at every pause end.",
+      note="reset_cursor of a discontiguous monotone space (MarkCompact/Compressor under map32) keeps regions by list order, which the model does not follow: that space is then only checked for overlap of new grants until its next full reset.",
+      design_ref="2/C28", shards=c28_shards,
+      floors={"quick": {"grants": 30000, "releases": 15000, "monotone_resets": 1500, "quiescent_snapshots": 20000, "snapshots_nonempty_space": 10000, "grants_of_previously_released_pages": 10000}})
+
+
+def c31_shards(tier, seed):
+    rnd = _rng(seed, 31)
+    shards = std_gc_shards(tier, seed, 31, ["resolve"]) + std_gc_shards(tier, seed, 310, ["resolve", "weak", "finalizers"], single_mutator=True, variants="AB", plans_filter=["SemiSpace", "Immix", "MarkSweep", "GenCopy"])
+    ops = 12000 if tier == "quick" else 40000
+    for plan in ["SemiSpace", "GenCopy", "GenImmix", "Immix", "StickyImmix", "MarkSweep", "MarkCompact", "ConcurrentImmix", "PageProtect"]:
+        for _ in range(1 if tier == "quick" else 4):
+            shards.append(gc_shard("A", plan, rnd, ops, flags=["resolve"], mutators=rnd.choice([1, 1, 2]), extra=["--layout", "map32"]))
+    return shards
+
+
+gcsim("C31", "Address-to-space resolution is total and exact",
+      rule=GC_RULE + "all plans in variants A-D on the default 64-bit layout (SFTSpaceMap, Map64) and variant A under a discontiguous 35-bit layout (--layout map32: SFTSparseChunkMap/Map32); at every pause end the SFT entry name, the VM map descriptor and "
+           "memory_manager::is_in_mmtk_spaces are queried for: addresses at the start / middle / last word of a sample of live objects of every semantics (must resolve to a space of the plan that is not the empty space; LOS / Immortal / NonMoving objects to the "
+           "spaces of those names, default objects to none of them; SFT space and VM-map descriptor must agree; inside the space's range), boundary addresses of every contiguous space (the space itself or empty, never another space), addresses outside the heap "
+           "(low, stack, static, malloc, heap_start-8, heap_end, heap_end+8, 2^47+-8, 2^63, usize::MAX&~7, side-metadata range: empty and not in MMTk spaces), objects freed by the last exhaustive GC and random chunk boundaries in the heap range "
+           "(mechanisms must agree: is_in_mmtk_spaces <=> SFT entry not empty; SFT space => same VM-map descriptor); a panic in any lookup is a violation; case = one address; distinct = set of spaces objects resolved to, empty seen",
+      technique="differential monitor of the three resolution mechanisms against the shadow heap and the plan's space table at quiescent points",
+      level_text="Resolution is checked for the addresses listed, in every pause of every run; not for all addresses.",
+      note="SFTSpaceMap attributes the whole 2 TiB address slot of a contiguous space to it, so addresses of a slot outside [start, start+extent) are not expected to be 'empty'. The VM map is only queried for addresses the SFT attributes to a space "
+           "(Map64::get_descriptor_for_address indexes out of bounds for the unusable last slot below heap_end; not reachable through the public API). SFTDenseChunkMap (vm_space builds) is not covered.",
+      design_ref="2/C31", shards=c31_shards,
+      floors={"quick": {"addresses_inside_live_objects": 500000, "space_boundary_addresses": 20000, "outside_heap_addresses": 5000, "random_chunk_addresses": 50000, "freed_object_addresses": 500, "addresses_resolved_to_empty": 30000}})
+
+
+def c34_shards(tier, seed):
+    rnd = _rng(seed, 34)
+    shards = [dict(pkg="units", variant="A", args=["C34"])]
+    reps = 1 if tier == "quick" else 5
+    ops = 16000 if tier == "quick" else 60000
+    table = [("A", ["Immix", "StickyImmix", "GenImmix", "ConcurrentImmix", "SemiSpace", "MarkSweep"]), ("B", ["Immix", "StickyImmix", "GenImmix", "SemiSpace"])]
+    for variant, plans in table:
+        for plan in plans:
+            for _ in range(reps):
+                nursery = ["--opt", "nursery=Fixed:1048576"] if plan in ("StickyImmix", "GenImmix") and rnd.random() < 0.5 else []
+                shards.append(gc_shard(variant, plan, rnd, ops, flags=["lines"], heap=rnd.choice([24, 32]), stress=rnd.choice([65536, 100000]), mutators=rnd.choice([1, 2, 4]), extra=nursery))
+    return shards
+
+
+gcsim("C34", "Immix never hands out a line that holds a live object",
+      rule=GC_RULE + "(i) live: Immix, StickyImmix, GenImmix, ConcurrentImmix (default space) and SemiSpace/MarkSweep (non-moving Immix space) in variants A and B (8 KiB blocks, non-moving sticky nursery), a GC every 64-100 KiB so that every process runs "
+           "several hundred collections and the 7-bit line mark state wraps; at every pause end, for every live object in an Immix space: every line it spans carries the current or the unavailable mark state, it does not cross its block, its block is not Unallocated; "
+           "for every block holding a live object the real ImmixSpace::get_next_available_lines is iterated the way the allocator does and must return exactly the maximal runs of lines whose mark is neither state (own scan of the line mark table), none of which "
+           "overlaps the lines of a live object; allocation into holes is additionally covered by the C02 overlap oracle in the same runs; (ii) unit: BlockState <-> byte round trip for all 256 bytes and all legal states on a real mapped block-state table, "
+           "Line::mark/is_marked for all byte values; case = one live object or block; distinct = (space, current state, unavailable state)",
+      technique="structural-invariant monitor at quiescent points (line mark table and real hole search vs the shadow heap's live objects) + reference-model unit for the block-state codec",
+      level_text="Invariant checked at every pause of long runs that cross the line-state wrap several times.",
+      note="Objects allocated since the last GC are not judged (their lines are only marked when traced).",
+      design_ref="2/C34", shards=c34_shards,
+      floors={"quick": {"live_immix_objects_checked": 300000, "lines_of_live_objects_checked": 800000, "blocks_hole_searched": 50000, "holes_returned": 80000, "line_state_wraps": 12, "pauses_nursery": 300, "pauses_full": 1500,
+                        "block_states_round_tripped": 130, "bytes_decoded": 256, "selftest_mutants_caught": 4}})
